@@ -21,10 +21,12 @@ def run(tier):
             rep.regime("skipped:" + e["skipped"])
             continue
         F = e["F"]
-        if F["events"][-1]["ev"] == "return":
+        if F["events"][-1]["ev"] == "return" and not F["hdr"].get("faultFired"):
             # the injected fault did not fire (e.g. the run converged before that round): no verdict
             rep.regime("fault_not_reached")
             continue
+        if F["events"][-1]["ev"] == "return":
+            rep.regime("fault_fired_but_call_returned")
         ftraces.append(F)
         points.add((tuple(e["what"]), e["P"], e["mp"], F["hdr"]["id"]))
         rep.regime("fault:" + str(e["what"][0]) + (":" + str(e["what"][1]) if e["what"][0] == "phase" else ""))
